@@ -444,17 +444,25 @@ impl BucketConfirmationManager {
             file.write_all(&state_bincode).await?;
             file.sync_all().await?;
         }
+        #[cfg(sierra_db_sierradb_verif)]
+        sierradb::verif::point("cf.persist.temp_written", &[("bucket", bucket_id as u64)]);
 
         // If current file exists, make it the previous backup
         if current_path.exists() {
             if previous_path.exists() {
                 fs::remove_file(&previous_path).await?;
             }
+            #[cfg(sierra_db_sierradb_verif)]
+            sierradb::verif::point("cf.persist.prev_removed", &[("bucket", bucket_id as u64)]);
             fs::rename(&current_path, &previous_path).await?;
+            #[cfg(sierra_db_sierradb_verif)]
+            sierradb::verif::point("cf.persist.cur_renamed", &[("bucket", bucket_id as u64)]);
         }
 
         // Make temp file the current file
         fs::rename(&temp_path, &current_path).await?;
+        #[cfg(sierra_db_sierradb_verif)]
+        sierradb::verif::point("cf.persist.done", &[("bucket", bucket_id as u64)]);
 
         info!("wrote bucket confirmations to disk");
 
